@@ -397,16 +397,11 @@ func (e *Engine) note(s string) {
 // ---- cells, loads and stores ----
 
 func (fc *funcCtx) load(st *State, p PtrV, pos token.Pos) Value {
+	if p.OSeq != nil {
+		return fc.walkPath(p.OSeq.at(p.Idx), p.Path)
+	}
 	if p.Heap {
-		v := fc.heapLoad(st, p.Elem, p.Ref, p.Idx)
-		for _, f := range p.Path {
-			sv, ok := v.(StructV)
-			if !ok {
-				fc.abort("field path into non-struct slice element")
-			}
-			v = sv.F[f]
-		}
-		return v
+		return fc.walkPath(fc.heapLoad(st, p.Elem, p.Ref, p.Idx), p.Path)
 	}
 	if p.IsNil != "false" && p.IsNil != "" {
 		fc.oblige(st, "nil", fc.site(pos, "call"), not(p.IsNil), "pointer is not nil")
@@ -420,12 +415,27 @@ func (fc *funcCtx) load(st *State, p PtrV, pos token.Pos) Value {
 	if !ok {
 		fc.abort("load from unknown cell %v", p.Cell)
 	}
-	for _, f := range p.Path {
-		sv, ok := v.(StructV)
-		if !ok {
+	return fc.walkPath(v, p.Path)
+}
+
+func (fc *funcCtx) walkPath(v Value, path []int) Value {
+	for _, f := range path {
+		switch sv := v.(type) {
+		case StructV:
+			v = sv.F[f]
+		case Sc:
+			ot := opaqueSort(sv.S)
+			if ot == nil {
+				fc.abort("field path into scalar")
+			}
+			nv, ok := opaqueField(ot, sv.T, opaqueFieldIndex(ot, f))
+			if !ok {
+				fc.abort("unknown field of opaque value")
+			}
+			v = nv
+		default:
 			fc.abort("field path into non-struct %T", v)
 		}
-		v = sv.F[f]
 	}
 	return v
 }
@@ -444,6 +454,22 @@ func (fc *funcCtx) globalValue(st *State, g *ssa.Global) Value {
 	}
 	fc.e.note("package-level variable " + g.Name() + " read as arbitrary value")
 	return fc.e.fresh(st, t, g.Name())
+}
+
+func setPathSt(st *State, v Value, path []int, nv Value) Value {
+	if len(path) == 0 {
+		return nv
+	}
+	if sc, ok := v.(Sc); ok {
+		if ot := opaqueSort(sc.S); ot != nil && len(path) == 1 {
+			return Sc{opaqueUpdate(st, ot, sc.T, opaqueFieldIndex(ot, path[0]), nv), sc.S}
+		}
+		panic(engineAbort{"nested store into opaque value"})
+	}
+	sv := v.(StructV)
+	n := StructV{T: sv.T, F: append([]Value(nil), sv.F...)}
+	n.F[path[0]] = setPathSt(st, sv.F[path[0]], path[1:], nv)
+	return n
 }
 
 func setPath(v Value, path []int, nv Value) Value {
@@ -475,7 +501,7 @@ func (fc *funcCtx) store(st *State, p PtrV, v Value, pos token.Pos) {
 	if !ok && len(p.Path) > 0 {
 		fc.abort("store into unknown cell")
 	}
-	st.cells[p.Cell] = setPath(old, p.Path, v)
+	st.cells[p.Cell] = setPathSt(st, old, p.Path, v)
 }
 
 // frameChecked: functions without slice-typed parameters cannot reach caller storage
@@ -556,11 +582,7 @@ func (fc *funcCtx) exec(st *State, ins ssa.Instruction) (stop bool) {
 		}
 		st.regs[x] = tv[x.Index]
 	case *ssa.Field:
-		sv, ok := fc.val(st, x.X).(StructV)
-		if !ok {
-			fc.abort("field of non-struct value")
-		}
-		st.regs[x] = sv.F[x.Field]
+		st.regs[x] = fc.walkPath(fc.val(st, x.X), []int{x.Field})
 	case *ssa.FieldAddr:
 		p, ok := fc.val(st, x.X).(PtrV)
 		if !ok {
@@ -881,6 +903,10 @@ func (fc *funcCtx) indexAddr(st *State, x *ssa.IndexAddr) {
 	case SliceV:
 		fc.oblige(st, "bounds", fc.site(x.Pos(), "index"), and(app("<=", "0", idx.T), app("<", idx.T, b.Len)), "index in range")
 		st.regs[x] = PtrV{Heap: true, Ref: b.Ref, Idx: elemIx(b.Off, idx.T), Elem: b.Elem}
+	case OSeqV:
+		fc.oblige(st, "bounds", fc.site(x.Pos(), "index"), and(app("<=", "0", idx.T), app("<", idx.T, b.lenTerm())), "index in range")
+		q := b
+		st.regs[x] = PtrV{OSeq: &q, Idx: idx.T, IsNil: "false"}
 	case PtrV:
 		// pointer to an array-typed local: the array lives in a heap row
 		if av, ok := st.cells[b.Cell].(SliceV); ok && !b.Heap && len(b.Path) == 0 {
